@@ -59,6 +59,7 @@ fixed("C06","C06/parse-error/owner-only-escaped-specials","ce2e7fa","an entry wh
 fixed("C06","C06/parse-error/mnemonic-like-token-after-comment-in-parentheses","603cf10","a comment inside parentheses reset the lexer's 'type seen' flag, so a following RDATA token spelling a type/class mnemonic (base64 chunk AAAA) was lexed as a type and the record rejected")
 fixed("C06","C06/keyword-like-token/origin-relative/a","7b7f089","a relative $ORIGIN value that spells a type mnemonic (a, mx, ns, soa, txt, aaaa, any) was rejected, and such an origin argument of $INCLUDE was silently ignored (included records completed with the wrong origin)")
 fixed("C06","C06/keyword-like-token/origin-absolute-trailing-comment/classic","2b347ff","an origin name that merely starts with TYPE or CLASS (classic.example., type1.example., typeset) followed by a blank or a comment after $ORIGIN / as $INCLUDE origin was rejected with 'unknown RR type' / 'unknown class' by the lexer")
+fixed("C06","C06/sequence/include-line-produced-by-generate-uses-the-include-FS","91f43d4","an $INCLUDE line produced by $GENERATE ($GENERATE 0-1 $$INCLUDE gen$.db) ignored the fs.FS given with SetIncludeFS and went to os.Open: the named files were not found in the FS (and the real file system was read instead)")
 # ---- C07
 fixed("C07","C07/error-line-out-of-range/mutation","de58904","a zone text ending right after a $GENERATE range ('$GENERATE 13-17<EOF>') was reported as 'garbage after $GENERATE range: \"\" at line: 0:0': the end-of-input token carries no position")
 fixed("C07","C07/syntax-error-not-reported/unbalanced-parenthesis/CSYNC","cdc71f1","an unbalanced parenthesis inside the RDATA of NSEC, NSEC3, NXT, CSYNC, LOC, HIP, APL, SVCB/HTTPS or NSEC3PARAM was swallowed: the record was returned, every later entry silently dropped and Err() stayed nil (those RDATA loops ignore the lexer's error flag)")
